@@ -107,3 +107,22 @@ pub fn gen_doc(r: &mut Rng) -> Document {
     if r.chance(2, 3) && num > 0 { doc.trailer.set("Root", Object::Reference((1 + r.below(num as u64) as u32, 0))); }
     doc
 }
+
+/// A sink that behaves legally but unusually: accepts at most `cap` bytes per `write` call and answers
+/// every `intr`-th call with `ErrorKind::Interrupted` (0 = never). What it received must be exactly what a
+/// `Vec` receives (C19), so C01 / C03 / C07 also save through it and compare the bytes.
+pub struct OddSink { pub data: Vec<u8>, cap: usize, intr: usize, calls: usize }
+impl OddSink {
+    pub fn new(r: &mut Rng) -> OddSink { OddSink { data: vec![], cap: *r.pick(&[1usize, 3, 7, 64, 512]), intr: *r.pick(&[0usize, 2, 3, 5]), calls: 0 } }
+    pub fn describe(&self) -> String { format!("at most {} bytes per write, Interrupted every {} calls", self.cap, self.intr) }
+}
+impl std::io::Write for OddSink {
+    fn write(&mut self, buf: &[u8]) -> std::io::Result<usize> {
+        self.calls += 1;
+        if self.intr > 0 && self.calls % self.intr == 0 { return Err(std::io::Error::new(std::io::ErrorKind::Interrupted, "interrupted")); }
+        let n = buf.len().min(self.cap);
+        self.data.extend_from_slice(&buf[..n]);
+        Ok(n)
+    }
+    fn flush(&mut self) -> std::io::Result<()> { Ok(()) }
+}
